@@ -54,6 +54,13 @@ func renderShape(shape string, n int) (string, error) {
 	case "cvx-nest-bind":
 		// nesting built at run time, one level per iteration, then bound
 		return fmt.Sprintf("{} %d { [ exch ] cvx } repeat bind", n), nil
+	case "bind-shared":
+		return fmt.Sprintf("{} %d { [ exch dup ] cvx } repeat bind", min(n, 900)), nil
+	case "bind-self-multi":
+		k := min(n, 24)
+		return fmt.Sprintf("/p {%s} def 0 1 %d {/p load exch /p load put} for /p load bind", rep("0 ", k), k-1), nil
+	case "default-handler":
+		return "errordict /typecheck get exec", nil
 	case "big-for":
 		return fmt.Sprintf("0 1 %d {} for", n), nil
 	case "deep-parens":
